@@ -458,6 +458,8 @@ def punctuation_root(tree, **params):
              if terminal.data['word'] in trees.PUNCT \
              and len(trees.children(terminal.parent)) > 1]
     for p in punct:
+        if len(p.parent.children) < 2:
+            continue
         p.parent.children.remove(p)
         tree.children.append(p)
         p.parent = tree
